@@ -491,6 +491,8 @@ class World:
         self.seq = 0
         self.steps = 0
         self.step_cap = step_cap
+        self._ev_step = -1
+        self._ev_run = 0
         self.vtime_cap = vtime_cap
         self.threads: List[SimThread] = []
         self.actors: List[Actor] = []
@@ -563,8 +565,30 @@ class World:
             World.active = None
 
     # -- log / digest ----------------------------------------------------
+    spin_calls = 20000       # kernel calls one simulated thread may make in a row without ever blocking or yielding
+
     def ev(self, ent: str, call: str, res: Any = '') -> None:
         self.seq += 1
+        if self.steps != self._ev_step:
+            self._ev_step, self._ev_run = self.steps, 0
+        self._ev_run += 1
+        if self._ev_run > self.spin_calls and not self.spin_sig and not self.in_actor and self.current is not None \
+                and not self.current.is_driver and _threading.current_thread() is self.current._real:
+            # an endless loop around a kernel call that keeps returning at once (send() -> EAGAIN, ...): no other simulated
+            # thread can ever run again.  Decided by count, not by the clock, so that the run replays exactly.
+            fr = sys._getframe(1)
+            chain = []
+            while fr is not None:
+                fn = fr.f_code.co_filename
+                if '/proxy/' in fn and '/sim/' not in fn:
+                    chain.append('%s:%s' % (fn.split('/proxy/', 1)[1], fr.f_code.co_name))
+                fr = fr.f_back
+            self.spin_sig = chain[0] if chain else 'unknown'
+            self.spin_chain = chain[:6]
+            self.spin_by_calls = True
+            self.hung = True
+            self.aborting = True
+            raise SimAbort()
         line = '%d|%.6f|%s|%s|%s' % (self.seq, self.now, ent, call, res)
         self.digest.update(line.encode('utf-8', 'backslashreplace'))
         if len(self.log) < self.keep_log:
@@ -812,10 +836,11 @@ class World:
         if me.is_driver and self.spin_budget_s:
             # The driver is parked here while the simulated threads pass the baton among themselves.  If no scheduler
             # step happens for spin_budget_s *real* seconds, the running thread is executing code that never reaches a
-            # kernel call (an endless loop in the code under test): unwind it and end the run as hung.
-            last, t_last = self.steps + self.seq, _time.monotonic()
+            # kernel call that yields (an endless loop in the code under test, possibly around a call that keeps failing at
+            # once, like send() -> EAGAIN): unwind it and end the run as hung.
+            last, t_last = self.steps, _time.monotonic()
             while not me._sem.acquire(timeout=0.2):
-                cur = self.steps + self.seq
+                cur = self.steps
                 if cur != last:
                     last, t_last = cur, _time.monotonic()
                 elif _time.monotonic() - t_last > self.spin_budget_s and not self.spin_sig:
@@ -830,17 +855,29 @@ class World:
         t = self.current
         if t is None or t.is_driver or t._real is None or t._real.ident is None:
             return
-        fr = sys._current_frames().get(t._real.ident)
+        # Sample the spinning thread's stack a few times: the frames that stay are the loop's own frame and its callers; the
+        # deepest of them names the loop (what is below it varies from sample to sample and would make a poor signature).
+        samples = []
+        for _ in range(25):
+            fr = sys._current_frames().get(t._real.ident)
+            ch = []
+            while fr is not None:
+                fn = fr.f_code.co_filename
+                if '/proxy/' in fn and '/sim/' not in fn:
+                    ch.append('%s:%s' % (fn.split('/proxy/', 1)[1], fr.f_code.co_name))
+                fr = fr.f_back
+            samples.append(list(reversed(ch)))       # outermost first
+            _threading.Event().wait(0.008)        # a real pause (time.sleep is simulated in this process)
+        common = samples[0]
+        for ch in samples[1:]:
+            k = 0
+            while k < len(common) and k < len(ch) and common[k] == ch[k]:
+                k += 1
+            common = common[:k]
         sig = 'unknown'
-        chain = []
-        while fr is not None:
-            fn = fr.f_code.co_filename
-            if '/proxy/' in fn and '/sim/' not in fn:
-                chain.append('%s:%s' % (fn.split('/proxy/', 1)[1], fr.f_code.co_name))
-            fr = fr.f_back
+        chain = list(reversed(common))
         if chain:
-            # the sampled frame varies within the loop; the file of the innermost proxy frame is stable
-            sig = chain[0].split(':')[0]
+            sig = chain[0]
         self.spin_sig = sig
         self.spin_chain = chain[:6]
         self.hung = True
